@@ -6,7 +6,7 @@
    global index, every attribute/public assignment, ignorePublic, includeSelf, ring mode or any admissible
    neighbour hints with ANY order of arrival, every history of resizes and rebuilds. *)
 From Coq Require Import List Arith Bool ZArith Permutation Lia.
-From DuneV Require Import C04_Model C04_Spec C04_Proofs C04_Proofs_Build C04_Proofs_Sync C04_Proofs_Ring.
+From DuneV Require Import C04_Model C04_Spec C04_Proofs C04_Proofs_Build C04_Proofs_Sync C04_Proofs_Ring C04_Proofs_Obj.
 Import ListNotations.
 
 (* the merge-join loop (index / oldGlobal / restart at oldLocalIndex) never runs out of fuel and returns the join
@@ -145,6 +145,60 @@ Theorem C04_self_two_incself_sound : forall loc R e, In e (c04_join true loc R) 
 Proof. exact P_self_filtered_sound. Qed.
 Print Assumptions C04_self_two_incself_sound.
 
+(* OBJECT HISTORIES.  One RemoteIndices object (literal state: source_/target_, neighbourIds, includeSelf, publicIgnored,
+   firstBuild, sourceSeqNo_/destSeqNo_, the map) driven through EVERY sequence of setIndexSets with or without hints,
+   setNeighbours, setIncludeSelf, free, rebuild<true/false> and resizes of any of the index-set pairs, from the constructor
+   with index sets (any hints, any includeSelf): the map, the neighbour hints and the set contents are those of the
+   flag-based history spec c04_hspec_step ("a rebuild takes place iff nothing was built for the targeted sets since
+   construction / setIndexSets / free(), or the publicity mode differs, or a targeted set was resized since; it then builds
+   the CURRENT content with the CURRENT includeSelf and hints; setIndexSets without hints means: no hints"), and between
+   a build and the next setIndexSets / free(), isSynced() is false exactly when a targeted set was resized. *)
+Theorem C04_obj_history : forall (result : Type) (buildf : c04_decomp -> bool -> bool -> list (list nat) -> result)
+    two P slots s hints inc ops, s < length slots -> Forall (c04_hop_wf (length slots)) ops ->
+  let y := c04_hrun result buildf (c04_sys_ctor result two P slots s hints inc) ops in
+  let h := c04_hspec_run result buildf (c04_hspec_ctor result two P slots s hints inc) ops in
+  c04_ob_map _ (c04_sy_obj _ y) = c04_hs_map _ h /\
+  c04_ob_hints _ (c04_sy_obj _ y) = c04_hs_hints _ h /\
+  map c04_sl_content (c04_sy_slots _ y) = c04_hs_contents _ h /\
+  (forall ig, c04_hs_built _ h = Some ig -> c04_obj_synced _ y = negb (c04_hs_stale _ h)).
+Proof. exact P_obj_history. Qed.
+Print Assumptions C04_obj_history.
+
+(* the same from the default constructor (RemoteIndices() followed by setIndexSets ...) *)
+Theorem C04_obj_history_default : forall (result : Type) (buildf : c04_decomp -> bool -> bool -> list (list nat) -> result)
+    two P slots ops, Forall (c04_hop_wf (length slots)) ops ->
+  let y := c04_hrun result buildf (c04_sys_default result two P slots) ops in
+  let h := c04_hspec_run result buildf (c04_hspec_default result two P slots) ops in
+  c04_ob_map _ (c04_sy_obj _ y) = c04_hs_map _ h /\
+  c04_ob_hints _ (c04_sy_obj _ y) = c04_hs_hints _ h /\
+  (forall ig, c04_hs_built _ h = Some ig -> c04_obj_synced _ y = negb (c04_hs_stale _ h)).
+Proof. exact P_obj_history_default. Qed.
+Print Assumptions C04_obj_history_default.
+
+(* what the history spec says about rebuild<ign>: afterwards "built in mode ign, not stale"; and whenever nothing was built
+   for the targeted sets (construction, setIndexSets, free), or a targeted set was resized, or the mode differs, the map is
+   the build of the CURRENT content with the current includeSelf and the current hints (minus the rank itself) *)
+Theorem C04_obj_rebuild_current : forall (result : Type) (buildf : c04_decomp -> bool -> bool -> list (list nat) -> result)
+    (h : c04_hspec result) ign s, c04_hs_slot _ h = Some s ->
+  let h' := c04_hspec_step result buildf h (C04_HRebuild ign) in
+  c04_hs_built _ h' = Some ign /\ c04_hs_stale _ h' = false /\
+  ((c04_hs_built _ h = None \/ c04_hs_stale _ h = true \/ c04_hs_built _ h = Some (negb ign)) ->
+     exists hints', c04_hs_map _ h' = Some (buildf (nth s (c04_hs_contents _ h) []) ign (c04_hs_incself _ h) hints') /\
+                    c04_hs_hints _ h' = hints' /\
+                    (hints' = c04_hs_hints _ h \/ hints' = c04_erase_self (c04_hs_hints _ h))).
+Proof. exact P_hspec_rebuild. Qed.
+Print Assumptions C04_obj_rebuild_current.
+
+(* the concrete collective build used in the histories: hints of all ranks empty (ring) or all non-empty and admissible:
+   every rank holds the spec *)
+Theorem C04_obj_build_is_spec : forall (two ign incself : bool) d hints p,
+  c04_decomp_sorted d -> p < length d ->
+  (forallb c04_is_nil hints = true \/
+   (forallb (fun h => negb (c04_is_nil h)) hints = true /\ c04_hints_ok ign two incself d p (nth p hints []))) ->
+  nth p (c04_obj_buildf two d ign incself hints) C04_OutOfFuel = C04_Ok (c04_spec_rank ign two incself d p).
+Proof. exact P_obj_buildf_spec. Qed.
+Print Assumptions C04_obj_build_is_spec.
+
 (* ---- non-vacuity ------------------------------------------------------------------------------------------ *)
 Definition ex_s0 := [C04_mkpair 0 10 0 true; C04_mkpair 1 11 0 true; C04_mkpair 2 12 1 true].
 Definition ex_s1 := [C04_mkpair 1 20 1 true; C04_mkpair 2 21 0 true; C04_mkpair 3 22 0 false].
@@ -203,4 +257,17 @@ Example C04_example_ring_order :
   c04_ring_ops 3 2 = [(1, C04_Ssend 0); (1, C04_Recv 1); (2, C04_Ssend 0); (2, C04_Recv 1)] /\
   map (fun x => c04_stamp 3 (c04_rdv_of 2 x)) (c04_ring_ops 3 2) = [4; 5; 7; 8] /\
   map (fun x => c04_stamp 3 (c04_rdv_of 0 x)) (c04_ring_ops 3 0) = [3; 4; 6; 7].
+Proof. vm_compute. repeat split; reflexivity. Qed.
+
+(* an object history: built with hints 0:{1} 1:{0,2} 2:{1} on slot 0 (only ranks 0,1 share), then re-targeted WITHOUT hints to
+   slot 1 where rank 2 shares with rank 0: the rebuild runs in ring mode and rank 0 sees rank 2 *)
+Example C04_example_history :
+  let dA : c04_decomp := [([C04_mkpair 1 0 0 true], []); ([C04_mkpair 1 1 0 true], []); ([C04_mkpair 9 2 0 true], [])] in
+  let dB : c04_decomp := [([C04_mkpair 1 0 0 true; C04_mkpair 2 3 0 true], []); ([C04_mkpair 1 1 0 true], []); ([C04_mkpair 2 2 0 true], [])] in
+  let slots := [C04_mkslot dA 1 1; C04_mkslot dB 1 1] in
+  let y := c04_hrun _ (c04_obj_buildf false) (c04_sys_ctor _ false 3 slots 0 [[1]; [0; 2]; [1]] false)
+                    [C04_HRebuild false; C04_HSetIndexSets 1 None; C04_HRebuild false] in
+  c04_ob_hints _ (c04_sy_obj _ y) = [[]; []; []] /\
+  option_map (fun l => nth 0 l C04_Mixed) (c04_ob_map _ (c04_sy_obj _ y)) = Some (C04_Ok (c04_spec_rank false false false dB 0)) /\
+  length (c04_spec_rank false false false dB 0) = 2.
 Proof. vm_compute. repeat split; reflexivity. Qed.
